@@ -150,6 +150,23 @@ func (ce *cenv) lookupIdent(id *ast.Ident) (Val, bool) {
 	if v, ok := ce.ex.ghostGet(ce.st, name); ok {
 		return v, true
 	}
+	// the key variable of a range loop that the code no longer names (names.go)
+	if ce.fr != nil && ce.fr.loops != nil {
+		if n := ce.ex.w.droppedRangeKey(ce.fr.fn, name); n >= 1 && n <= len(ce.fr.loops.headers) {
+			for _, ins := range ce.fr.loops.headers[n-1].Instrs {
+				phi, ok := ins.(*ssa.Phi)
+				if !ok {
+					break
+				}
+				if phi.Comment == "rangeindex" {
+					if v, ok := ce.fr.vals[phi]; ok {
+						ce.ex.used["dropped range key tolerated: contract identifier "+name+" denotes the index of range loop "+strconv.Itoa(n)+" of "+ce.fr.fn.Name()] = true
+						return scalar(types.Typ[types.Int], app("+", v.L[0], "1")), true
+					}
+				}
+			}
+		}
+	}
 	// package scope
 	if ce.pkg != nil {
 		if obj := ce.pkg.Pkg.Scope().Lookup(name); obj != nil {
@@ -1090,6 +1107,28 @@ func (ce *cenv) pseudo(name string, x *ast.CallExpr) (Val, bool) {
 			v.L[j] = ex.heapGet(ce.st, rk, l.Sort)
 		}
 		return v, true
+	case "rangeidx": // rangeidx(N): current index of the range loop with ordinal N (an enclosing loop of the clause's position)
+		n, _ := strconv.Atoi(types.ExprString(x.Args[0]))
+		if ce.fr == nil || n < 1 || n > len(ce.fr.loops.headers) {
+			ce.fail(x, "rangeidx: no such loop")
+		}
+		for _, ins := range ce.fr.loops.headers[n-1].Instrs {
+			phi, ok := ins.(*ssa.Phi)
+			if !ok {
+				break
+			}
+			if phi.Comment == "rangeindex" {
+				if v, ok := ce.fr.vals[phi]; ok {
+					return scalar(types.Typ[types.Int], app("+", v.L[0], "1")), true
+				}
+			}
+		}
+		ce.fail(x, "rangeidx: loop is not a range loop over a slice, or is not active here")
+	case "done": // done(ctx): the context is cancelled / expired in the current state (monotone)
+		return boolVal(sel(ex.ctxDone(ce.st), arg(0).L[1])), true
+	case "cancelled": // cancelled(cancelFn): the context that this context.CancelFunc cancels is done
+		ex.registerKey("X|ctx.cancels", arrSort(sInt, sInt))
+		return boolVal(sel(ex.ctxDone(ce.st), sel(ex.heapGet(ce.st, "X|ctx.cancels", arrSort(sInt, sInt)), arg(0).L[0]))), true
 	case "bounded": // bounded(ctx): the context carries a finite deadline
 		return boolVal(sel(ex.ctxBounded(ce.st), arg(0).L[1])), true
 	case "reqBounded": // reqBounded(req): the *http.Request was built with a context that has a deadline
